@@ -89,8 +89,8 @@ Definition get_severity (cfg : config) (c : code) : option severity :=
   | None => Some (default_severity c)
   end.
 
-(** a call [context.add_diagnostic(code, range, message, _)] *)
-Record emit := { e_code : code; e_range : range; e_msg : list N }.
+(** a call [context.add_diagnostic(code, range, message, data)] ([data]: the serialised JSON value, if any) *)
+Record emit := { e_code : code; e_range : range; e_msg : list N; e_data : option (list N) }.
 
 (** an [lsp_types::Diagnostic] as built by [add_diagnostic] *)
 Record diag := {
@@ -98,7 +98,8 @@ Record diag := {
   d_name : string;                 (* Diagnostic.code = code.get_name() *)
   d_range : lsp_range;
   d_severity : option severity;
-  d_msg : list N
+  d_msg : list N;
+  d_data : option (list N)         (* source and tags are functions of the code *)
 }.
 
 (** [add_diagnostic]; [tr] is [translate_range] with its [0:0] fallback (modelled in C21) *)
@@ -106,7 +107,7 @@ Definition add_diagnostic (tr : range -> lsp_range) (cfg : config) (f : file) (e
   if negb (is_checker_enable_by_code cfg f (e_code e)) then None
   else if f_suppressed f (e_code e) (e_range e) then None
   else Some {| d_code := e_code e; d_name := code_name (e_code e); d_range := tr (e_range e);
-               d_severity := get_severity cfg (e_code e); d_msg := e_msg e |}.
+               d_severity := get_severity cfg (e_code e); d_msg := e_msg e; d_data := e_data e |}.
 
 Fixpoint filter_map {A B : Type} (g : A -> option B) (l : list A) : list B :=
   match l with
@@ -123,16 +124,32 @@ Definition run_check (tr : range -> lsp_range) (cfg : config) (f : file) (k : ch
   then filter_map (add_diagnostic tr cfg f) (k_body k cfg)
   else [].
 
-(** [check_file] followed by [get_diagnostics] *)
+(** [check_file]: the diagnostics vector after all checkers ran *)
 Definition check_file (tr : range -> lsp_range) (cfg : config) (f : file) (ks : list checker) : list diag :=
   flat_map (run_check tr cfg f) ks.
+
+(** equality of diagnostics is decidable (Rust: [#[derive(PartialEq)]] on [Diagnostic]) *)
+Definition diag_eq_dec : forall a b : diag, {a = b} + {a <> b}.
+Proof. repeat decide equality. Defined.
+
+(** the loop of [DiagnosticContext::get_diagnostics]: a diagnostic equal to one already kept is skipped
+    (the hash map keyed by (range, message) only speeds up the search for an equal one) *)
+Fixpoint dedup_acc (kept : list diag) (l : list diag) : list diag :=
+  match l with
+  | [] => []
+  | d :: r => if in_dec diag_eq_dec d kept then dedup_acc kept r else d :: dedup_acc (d :: kept) r
+  end.
+
+(** [DiagnosticContext::get_diagnostics] — whether it de-duplicates is read off the source ([dedup_diagnostics]) *)
+Definition get_diagnostics (l : list diag) : list diag :=
+  if dedup_diagnostics then dedup_acc [] l else l.
 
 (** [LuaDiagnostic::diagnose_file] (not cancelled, the file has a syntax tree) *)
 Definition diagnose_file (tr : range -> lsp_range) (cfg : config) (f : file) (ks : list checker) : option (list diag) :=
   if negb (cfg_enable cfg) then None
   else match f_workspace f with
-       | Some w => if N.eqb w main_workspace_id then Some (check_file tr cfg f ks) else None
-       | None => Some (check_file tr cfg f ks)
+       | Some w => if N.eqb w main_workspace_id then Some (get_diagnostics (check_file tr cfg f ks)) else None
+       | None => Some (get_diagnostics (check_file tr cfg f ks))
        end.
 
 (** the [CODES] of a checker of the source, by type name *)
@@ -170,7 +187,7 @@ Definition check_name_expr (cfg : config) (o : name_occ) : option emit :=
   else if name_mem (o_name o) (cfg_globals cfg) then None
   else if existsb (fun r => match r with Some p => p (o_name o) | None => false end) (cfg_globals_regex cfg) then None
   else if name_eqb (o_name o) self_name && o_self_ok o then None
-  else Some {| e_code := C_UndefinedGlobal; e_range := o_range o; e_msg := ug_prefix ++ o_name o |}.
+  else Some {| e_code := C_UndefinedGlobal; e_range := o_range o; e_msg := ug_prefix ++ o_name o; e_data := None |}.
 
 Definition undefined_global_checker (occs : list name_occ) : checker :=
   {| k_codes := codes_of_checker "UndefinedGlobalChecker";
